@@ -5,11 +5,13 @@
   * `float_ext`: a `Float` is determined by its unpacked value (a model value holds only the canonical NaN);
   * `key_inj`, `float_eq_of_eq_pos`: IEEE `==` on a non-zero number is equality of the values (`==` only identifies `±0`).
 
-  The monotonicity of the rounded `*`, `/`, `+`, `-` is in Lemmas/FloatRoundMono.lean (generic in the format) and
-  Lemmas/FloatArithMono.lean (`Float`).
+  * the monotonicity of the rounded `*`, `/`, `+`, `-` (proved in Lemmas/FloatRoundMono.lean, generic in the format, and
+    Lemmas/FloatArithMono.lean) under the names `mul_le_mul_right_float`, `div_le_div_right_float`,
+    `add_le_add_left_float`, `sub_le_sub_left_float`, and NaN propagation.
 -/
 import RosuModel.Lemmas.FloatModelCompare
 import RosuModel.Lemmas.FloatModelBits
+import RosuModel.Lemmas.FloatArithMono
 namespace Rosu.FTL
 open Rosu Float.Model
 open Float.Model.UnpackedFloat (Sign)
@@ -55,5 +57,28 @@ theorem not_zero_of_pos (x : Float) (h : Scalar.lt (0 : Float) x = true) : ∀ s
 theorem float_eq_of_eq_pos (x y : Float) (h : Scalar.eq x y = true) (hx : Scalar.lt (0 : Float) x = true) : x = y := by
   obtain ⟨h1, h2, h3⟩ := (FMO.eq_iff x y).mp h
   exact float_ext x y (key_inj _ _ h1 h2 h3 (not_zero_of_pos x hx))
+
+/-! ### the monotone rounded operations (Lemmas/FloatArithMono.lean), gathered here -/
+
+/-- `a ≤ b`, `0 ≤ c`, no NaN product ⟹ `a·c ≤ b·c`. -/
+theorem mul_le_mul_right_float (a b c : Float) (hab : Scalar.le a b = true) (hc : Scalar.le (0 : Float) c = true)
+    (hna : Scalar.isNaN (a * c) = false) (hnb : Scalar.isNaN (b * c) = false) : Scalar.le (a * c) (b * c) = true :=
+  FAM.mul_le_mul_right_float a b c hab hc hna hnb
+
+/-- `a ≤ b`, `0 < c`, no NaN quotient ⟹ `a/c ≤ b/c`. -/
+theorem div_le_div_right_float (a b c : Float) (hab : Scalar.le a b = true) (hc : Scalar.lt (0 : Float) c = true)
+    (hna : Scalar.isNaN (a / c) = false) (hnb : Scalar.isNaN (b / c) = false) : Scalar.le (a / c) (b / c) = true :=
+  FAM.div_le_div_right_float a b c hab hc hna hnb
+
+/-- `x ≤ y`, no NaN sum ⟹ `s + x ≤ s + y`. -/
+theorem add_le_add_left_float (s x y : Float) (hxy : Scalar.le x y = true)
+    (hnx : Scalar.isNaN (s + x) = false) (hny : Scalar.isNaN (s + y) = false) : Scalar.le (s + x) (s + y) = true :=
+  FAM.add_le_add_left_float s x y hxy hnx hny
+
+/-- `x ≤ y`, `s` finite and non-zero, no NaN difference ⟹ `s − y ≤ s − x`. -/
+theorem sub_le_sub_left_float (s x y : Float) (hs : FMO.isFiniteNonzero s.toModel.unpack = true)
+    (hxy : Scalar.le x y = true) (hnx : Scalar.isNaN (s - x) = false) (hny : Scalar.isNaN (s - y) = false) :
+    Scalar.le (s - y) (s - x) = true :=
+  FAM.sub_le_sub_left_float s x y hs hxy hnx hny
 
 end Rosu.FTL
